@@ -31,6 +31,9 @@ namespace
     struct kref {};     // returns int& (decltype(auto) must keep the reference)
     struct kstr {};     // returns std::string (a different type in the other branch must be fine)
 
+    struct kcref {};    // returns const int& (reference-ness and constness must both survive)
+    struct knocopy {};  // a functor that can be neither copied nor moved, returns int
+
     struct cell
     {
         int value = 0;
@@ -61,7 +64,24 @@ namespace
         }
     };
 
+    template <> struct maker<kcref>
+    {
+        static auto make(cell& c)
+        {
+            return [&c](auto self) -> const int& { ++c.calls; c.self_ok += (self(7) == 7); return c.value; };
+        }
+    };
+    struct pinned
+    {
+        cell& c;
+        explicit pinned(cell& cc) : c(cc) {}
+        pinned(const pinned&) = delete;
+        pinned& operator=(const pinned&) = delete;
+        template <class S> int operator()(S self) const { ++c.calls; c.self_ok += (self(7) == 7); return c.value; }
+    };
+
     template <class R> struct kind_name { static const char* get() { return "other"; } };
+    template <> struct kind_name<const int&> { static const char* get() { return "cref"; } };
     template <> struct kind_name<int> { static const char* get() { return "int"; } };
     template <> struct kind_name<int&> { static const char* get() { return "intref"; } };
     template <> struct kind_name<std::string> { static const char* get() { return "str"; } };
@@ -76,11 +96,28 @@ namespace
         bool aliases;   // for a reference result: it refers to the selected callable's cell
     };
 
+    template <class K> struct holder
+    {
+        decltype(maker<K>::make(std::declval<cell&>())) f;
+        explicit holder(cell& c) : f(maker<K>::make(c)) {}
+    };
+#ifdef HAVE_NOCOPY
+    template <> struct holder<knocopy>
+    {
+        pinned f;
+        explicit holder(cell& c) : f(c) {}
+    };
+#else
+    template <> struct maker<knocopy> : maker<kint> {};       // (never requested by the runner in such a build)
+#endif
+
     template <bool C, class KT, class KF>
     result call(bool tag_form, cell& ct, cell& cf)
     {
-        auto tf = maker<KT>::make(ct);
-        auto ff = maker<KF>::make(cf);
+        holder<KT> ht(ct);
+        holder<KF> hf(cf);
+        auto& tf = ht.f;
+        auto& ff = hf.f;
         result r;
         if (tag_form)
         {
@@ -114,6 +151,8 @@ namespace
         if (kf == "int") return call<C, KT, kint>(tag, ct, cf);
         if (kf == "intref") return call<C, KT, kref>(tag, ct, cf);
         if (kf == "str") return call<C, KT, kstr>(tag, ct, cf);
+        if (kf == "cref") return call<C, KT, kcref>(tag, ct, cf);
+        if (kf == "nocopy") return call<C, KT, knocopy>(tag, ct, cf);
         std::fprintf(stderr, "script: unknown callable kind %s\n", kf.c_str());
         std::exit(3);
     }
@@ -124,6 +163,8 @@ namespace
         if (kt == "int") return call_f<C, kint>(kf, tag, ct, cf);
         if (kt == "intref") return call_f<C, kref>(kf, tag, ct, cf);
         if (kt == "str") return call_f<C, kstr>(kf, tag, ct, cf);
+        if (kt == "cref") return call_f<C, kcref>(kf, tag, ct, cf);
+        if (kt == "nocopy") return call_f<C, knocopy>(kf, tag, ct, cf);
         std::fprintf(stderr, "script: unknown callable kind %s\n", kt.c_str());
         std::exit(3);
     }
@@ -156,7 +197,7 @@ int main()
         result r = c ? call_t<true>(kt, kf, tag, ct, cf) : call_t<false>(kt, kf, tag, ct, cf);
         // a reference result that does not alias the selected cell is reported as a different kind
         std::string rt = r.rt;
-        if (rt == "intref" && !r.aliases) rt = "intref-dangling";
+        if ((rt == "intref" || rt == "cref") && !r.aliases) rt += "-dangling";
         if (ct.self_ok != ct.calls || cf.self_ok != cf.calls) rt += "-badself";
         vj::out res;
         res.kv("val", r.val).ks("rt", rt).kv("tcalls", ct.calls).kv("fcalls", cf.calls);
